@@ -63,12 +63,23 @@ type Solver struct {
 	Stats     Stats
 	Dump      io.Writer
 	UseCvc5   bool // try cvc5 --solve-bv-as-int=sum when z3 says unknown
+	Cvc5Main  bool // the persistent process itself is cvc5 --incremental --solve-bv-as-int=sum
+}
+
+func (s *Solver) argv() []string {
+	if s.Cvc5Main {
+		return []string{"cvc5", "--incremental", "--solve-bv-as-int=sum", "--produce-models", "--lang=smt2"}
+	}
+	return []string{s.Bin, "-in"}
 }
 
 var genCounter = 0
 
 func New(bin string, timeoutMs int) (*Solver, error) {
 	s := &Solver{Bin: bin, TimeoutMs: timeoutMs, UseCvc5: true}
+	if bin == "cvc5int" {
+		s.Cvc5Main, s.UseCvc5 = true, false
+	}
 	if err := s.start(); err != nil {
 		return nil, err
 	}
@@ -76,7 +87,8 @@ func New(bin string, timeoutMs int) (*Solver, error) {
 }
 
 func (s *Solver) start() error {
-	s.cmd = exec.Command(s.Bin, "-in")
+	av := s.argv()
+	s.cmd = exec.Command(av[0], av[1:]...)
 	var err error
 	s.in, err = s.cmd.StdinPipe()
 	if err != nil {
@@ -120,6 +132,10 @@ func (s *Solver) Reset() {
 	s.declared = map[string]bool{}
 	s.script.Reset()
 	s.pending.Reset()
+	if s.Cvc5Main {
+		fmt.Fprintf(&s.pending, "(reset)\n(set-option :tlimit-per %d)\n(set-logic ALL)\n", s.TimeoutMs)
+		return
+	}
 	fmt.Fprintf(&s.pending, "(reset)\n(set-option :timeout %d)\n", s.TimeoutMs)
 }
 
@@ -331,7 +347,8 @@ func (s *Solver) flushRead(marker string) []string {
 func (s *Solver) restartReplay() {
 	script := append([]byte(nil), s.script.Bytes()...)
 	s.Close()
-	s.cmd = exec.Command(s.Bin, "-in")
+	av := s.argv()
+	s.cmd = exec.Command(av[0], av[1:]...)
 	s.in, _ = s.cmd.StdinPipe()
 	o, _ := s.cmd.StdoutPipe()
 	s.cmd.Stderr = os.Stderr
@@ -340,7 +357,11 @@ func (s *Solver) restartReplay() {
 		panic(err)
 	}
 	s.pending.Reset()
-	fmt.Fprintf(&s.pending, "(set-option :timeout %d)\n", s.TimeoutMs)
+	if s.Cvc5Main {
+		fmt.Fprintf(&s.pending, "(set-option :tlimit-per %d)\n(set-logic ALL)\n", s.TimeoutMs)
+	} else {
+		fmt.Fprintf(&s.pending, "(set-option :timeout %d)\n", s.TimeoutMs)
+	}
 	s.pending.Write(script)
 }
 
